@@ -345,6 +345,88 @@ theorem tie_flush_model (C : BlockCipher) (key seen out : Bytes) (we sh : Bool) 
   unfold flushResp
   cases ho : out.isEmpty <;> cases he : ecbEncrypt C key out <;> simp
 
+/-! ### round 5c: `ParseContentSecurity` and `VerifySignature` as decision functions = the model -/
+
+/-- what a return statement of `ParseContentSecurity` means in the model -/
+def parseResultOf (hdr : CsHeader) (last : String) : Except CsParseErr CsHeader :=
+  if last = "return nil, ErrInvalidHeader" then .error .invalidHeader
+  else if last = "return nil, ErrInvalidPublicKey" then .error .invalidPublicKey
+  else if last = "return nil, ErrInvalidSecret" then .error .invalidSecret
+  else if last = "return nil, ErrInvalidKey" then .error .invalidKey
+  else if last = "return nil, ErrInvalidContentType" then .error .invalidContentType
+  else .ok hdr
+
+def rsaPlain : RsaRes → String
+  | .ok p => p
+  | _ => ""
+
+/-- THE MODEL'S `parseContentSecurity` IS THE TRANSLATED FUNCTION: the same five tests in the same order (an empty field, a
+fingerprint without decrypter, an undecryptable secret, a key that is not base64, a type that is no integer), each ending in
+its own error, and on success the header built from the decoded key, the timestamp, the type and the SIGNATURE FIELD OF THE
+HEADER — for every environment and request -/
+theorem tie_parseContentSecurity_model (env : CsEnv) (req : CsReq) :
+    parseContentSecurity env req =
+      parseResultOf
+        { key := (b64Decode (attr (parseHeaderFields (rsaPlain (env.rsa (headerTriple req).1 (headerTriple req).2.1))) "key")).getD [],
+          timestamp := attr (parseHeaderFields (rsaPlain (env.rsa (headerTriple req).1 (headerTriple req).2.1))) "time",
+          contentType := (parseInt64 (attr (parseHeaderFields (rsaPlain (env.rsa (headerTriple req).1 (headerTriple req).2.1))) "type")).getD 0,
+          signature := (headerTriple req).2.2 }
+        ((parseContentSecurityEffects
+            (decide ((headerTriple req).1.isEmpty = true ∨ (headerTriple req).2.1.isEmpty = true ∨ (headerTriple req).2.2.isEmpty = true))
+            (decide (env.rsa (headerTriple req).1 (headerTriple req).2.1 = .noKey))
+            (decide (env.rsa (headerTriple req).1 (headerTriple req).2.1 = .err))
+            (b64Decode (attr (parseHeaderFields (rsaPlain (env.rsa (headerTriple req).1 (headerTriple req).2.1))) "key")).isNone
+            (parseInt64 (attr (parseHeaderFields (rsaPlain (env.rsa (headerTriple req).1 (headerTriple req).2.1))) "type")).isNone).getLast?.getD "") := by
+  unfold parseContentSecurity parseContentSecurityEffects
+  simp only []
+  by_cases h0 : (headerTriple req).1.isEmpty = true ∨ (headerTriple req).2.1.isEmpty = true ∨ (headerTriple req).2.2.isEmpty = true
+  · rw [if_pos h0]
+    simp only [decide_eq_true h0]
+    simp [parseResultOf]
+  · rw [if_neg h0]
+    simp only [decide_eq_false h0]
+    cases hr : env.rsa (headerTriple req).1 (headerTriple req).2.1 with
+    | noKey => simp [parseResultOf]
+    | err => simp [parseResultOf]
+    | ok plain =>
+      simp only [rsaPlain]
+      split
+      · rename_i hk; simp [hk, parseResultOf]
+      · rename_i key hk
+        split
+        · rename_i ht; simp [hk, ht, parseResultOf]
+        · rename_i ct ht; simp [hk, ht, parseResultOf]
+
+def codeOf (last : String) : Nat :=
+  if last = "return httpx.CodeSignaturePass" then 0
+  else if last = "return httpx.CodeSignatureInvalidHeader" then 1
+  else if last = "return httpx.CodeSignatureWrongTime" then 2
+  else 3
+
+/-- THE MODEL'S `verifySignature` IS THE TRANSLATED FUNCTION: timestamp parse, then the window, then path / query, the HMAC
+under the HEADER's key, and pass exactly on equality with the header's signature -/
+theorem tie_verifySignature_model (env : CsEnv) (tol : Int) (req : CsReq) (h : CsHeader) :
+    verifySignature env tol req h =
+      codeOf ((verifySignatureEffects (parseInt64 h.timestamp).isNone
+          (outsideWindow ((parseInt64 h.timestamp).getD 0) tol env.now)
+          (decide (h.signature = env.hmacB64 h.key
+            (signContent env h.timestamp req.method (pathQuery env req).1 (pathQuery env req).2 req.body)))).getLast?.getD "") := by
+  unfold verifySignature verifySignatureEffects
+  cases hp : parseInt64 h.timestamp with
+  | none => simp [codeOf]
+  | some sec =>
+    simp only [Option.getD_some, Option.isNone_some]
+    by_cases hw : outsideWindow sec tol env.now = true
+    · simp [hw, codeOf]
+    · by_cases hs : h.signature = env.hmacB64 h.key
+          (signContent env h.timestamp req.method (pathQuery env req).1 (pathQuery env req).2 req.body)
+      · simp [hw, hs, codeOf]
+      · simp [hw, hs, codeOf]
+
+/-- the codes are the constants of rest/httpx (tie_codes) -/
+theorem tie_codeOf : codeOf "return httpx.CodeSignaturePass" = 0 ∧ codeOf "return httpx.CodeSignatureInvalidHeader" = 1
+    ∧ codeOf "return httpx.CodeSignatureWrongTime" = 2 ∧ codeOf "return httpx.CodeSignatureInvalidToken" = 3 := by decide
+
 /-! ### round 5c: the accesses to the shared history (the steps of the interleaving model `Conc`) -/
 
 /-- `incrementCount` TRANSLATED: clock, clearing (a `Range` whose body deletes every key — checked by the extractor) when the
